@@ -398,6 +398,56 @@ func (w *World) Expect(sid, what string) {
 	w.rec.Log("expect", "sid", sid, "what", what, "upg", upg)
 }
 
+// logModelExpect records, next to the projection of the model state a replayed behaviour expects after a step, the same
+// projection of the real session (conformance of the code to EioSession.tla, state by state).
+func (w *World) logModelExpect(sid string, pollReq *Req, action any, exp map[string]any) {
+	so := w.Sock(sid)
+	if so == nil {
+		return
+	}
+	tr, wr := "polling", false
+	if t := so.Transport(); t != nil {
+		if t.Name() != "polling" {
+			tr = "stream"
+		}
+		wr = t.Writable()
+	}
+	_, inTable := w.Srv.Clients().Load(sid)
+	poll := "none"
+	w.mu.Lock()
+	if r := pollReq; r != nil && !r.returned && !r.aborted && r.Status == 0 {
+		poll = "pending"
+	}
+	w.mu.Unlock()
+	nclose := w.rec.CountWhere(func(e Ev) bool { return e["e"] == "sock.close" && e["sid"] == sid })
+	nrcvd := 0
+	w.rec.mu.Lock()
+	for _, e := range w.rec.events {
+		switch e["e"] {
+		case "cli.resp":
+			if e["sid"] == sid {
+				if pk, ok := e["pk"].([]any); ok {
+					for _, p := range pk {
+						if m, ok := p.(map[string]any); ok && m["ty"] == "message" {
+							nrcvd++
+						}
+					}
+				}
+			}
+		case "cli.ws.recv":
+			if e["sid"] == sid {
+				if m, ok := e["pk"].(map[string]any); ok && m["ty"] == "message" {
+					nrcvd++
+				}
+			}
+		}
+	}
+	w.rec.mu.Unlock()
+	act := map[string]any{"rs": so.ReadyState(), "tr": tr, "upgrading": so.Upgrading(), "upgraded": so.Upgraded(), "reg": inTable,
+		"count": int64(w.Srv.ClientsCount()), "wr": wr, "poll": poll, "nclose": nclose, "nrcvd": nrcvd}
+	w.rec.Log("model.expect", "sid", sid, "a", action, "exp", exp, "act", act)
+}
+
 // Snapshot logs registry and per-socket state at a quiescent instant.
 func (w *World) Snapshot() {
 	synctest.Wait()
